@@ -63,7 +63,21 @@ def run(ctx: Ctx) -> None:
             desc = f"visited-set key `{unparse(key, 40)}` of {f.name} depends on the node being visited"
             dep_add = bool(names_in(key) & own) if key is not None else False
             dep_test = bool(names_in(tkey) & own)
-            if dep_add and dep_test:
+            proj = None
+            for k_ in (key, tkey):
+                for x_ in ast.walk(k_) if k_ is not None else []:
+                    if isinstance(x_, ast.Attribute) and isinstance(x_.value, ast.Name) and x_.value.id in f.params:
+                        proj = x_
+            from ..flow import returns_of
+            collector = f.parent is not None and bool(returns_of(f.parent))
+            if dep_add and dep_test and proj is not None and not collector:
+                rep.info("C09.R1", f.qname, f"walker {f.name} collapses nodes by `{unparse(proj)}` (its enclosing function returns nothing: display only, not judged)", f.loc(a))
+            elif dep_add and dep_test and proj is not None:
+                rep.bad("C09.R1", f.qname, f"visited-set key of {f.name} identifies the node being visited", f.loc(a),
+                        [f"{f.loc(a)}: key `{unparse(key, 40)}` is the field `{unparse(proj)}` of the node, not the node",
+                         "two nodes that share this field but differ elsewhere (one function kept under two paths, the methods of a class) are taken for one: the second is skipped and "
+                         "its stored path / loads are never collected"], stmt_key(a) + "proj", what=f"{f.name}: visited set keyed on a field of the node skips distinct nodes")
+            elif dep_add and dep_test:
                 rep.ok("C09.R1", f.qname, desc, f.loc(a))
             else:
                 rep.bad("C09.R1", f.qname, desc, f.loc(a),
@@ -212,7 +226,7 @@ def run(ctx: Ctx) -> None:
         rep.bad("C09.R5", top.qname, desc, top.loc(), ["no assignment to <context>.resolved_references"], "no-install", what="external loads are never resolved")
     else:
         a = assigns[-1]
-        sl = ctx.slicer(follow_calls=False).slice(top, a.value)
+        sl = ctx.slicer(follow_calls=True).slice(top, a.value)
         fp = sl.find(lambda f_, n_: isinstance(n_, ast.Call) and isinstance(n_.func, ast.Attribute) and n_.func.attr == "fetch_paths")
         w = dominated(ctx, top, intro[0], done_nodes(cfg, a))
         w2 = dominated(ctx, top, a, [d for c in indirect for d in done_nodes(cfg, c)])
@@ -220,15 +234,15 @@ def run(ctx: Ctx) -> None:
             rep.ok("C09.R5", top.qname, desc, top.loc(a))
             # the fetched list is all_loads minus all_stores, sorted
             arg = fp.node.args[0] if fp.node.args else None
-            sl2 = ctx.slicer(follow_calls=False).slice(top, arg) if arg is not None else None
+            sl2 = ctx.slicer(follow_calls=True, follow_callers=True).slice(fp.func, arg) if arg is not None else None
             names = {unparse(n.func).split(".")[-1] for _, n in (sl2.nodes() if sl2 else []) if isinstance(n, ast.Call)}
             minus_stores = False
-            for _, cn in (sl2.nodes() if sl2 else []):
+            for _f, cn in (sl2.nodes() if sl2 else []):
                 if isinstance(cn, (ast.ListComp, ast.GeneratorExp, ast.SetComp)):
                     for g in cn.generators:
                         for c_ in g.ifs:
                             if isinstance(c_, ast.Compare) and isinstance(c_.ops[0], ast.NotIn):
-                                s3 = ctx.slicer(follow_calls=False).slice(top, c_.comparators[0])
+                                s3 = ctx.slicer(follow_calls=True, follow_callers=True).slice(_f, c_.comparators[0])
                                 if s3.find(lambda f_, n_: isinstance(n_, ast.Call) and unparse(n_.func).endswith("all_stores")) is not None:
                                     minus_stores = True
             if {"all_loads", "sorted"} <= names and minus_stores:
@@ -244,6 +258,11 @@ def run(ctx: Ctx) -> None:
     from .c04 import commit_rules
     rep.rule("C09.R7", "as C04.R1: every evaluation that returns commits its complete path map (a skipped commit leaves the path on an older value)")
     commit_rules(ctx, top, "C09.R7")
+
+    # ---- R8: no process-wide cache of analysis results (a reader cached across evaluations keeps the old key of the path it loads)
+    from .c03 import global_cache_rule
+    rep.rule("C09.R8", "as C03.R3(i): the process-wide interaction cache has no writer")
+    global_cache_rule(ctx, "C09.R8")
 
     # ---- R6 -------------------------------------------------------------------------------
     n6 = 0
